@@ -817,4 +817,57 @@ theorem C19_entry_op_placement_free (c : Costs) (pl pl' : Placement) (l : ELayer
     subst h; subst h'
     simp
 
+
+/-! ## merge layers with BROADCAST operands (strengthening round 4, seeds C19-11 / finding
+    C19-merge-two-sided-broadcast) -/
+
+/-- One-sided broadcast (channel mask (H,W,1) x (H,W,C), squeeze-and-excite (1,1,C) x (H,W,C), gates …):
+    whatever the ORDER of the operands, if one operand `full` has the shape every operand broadcasts to,
+    the count of the operand selected by the code's strict-`>` loop is the number of elements of the
+    broadcast result (the scalar operations per extra operand). -/
+theorem C19_count_merge_broadcast (name : String) (hn : isMergeName name = true)
+    (s0 : List ℕ) (rest : List (List ℕ)) (full : List ℕ)
+    (hfull : full ∈ s0 :: rest) (hb : ∀ s ∈ s0 :: rest, bcastTo s full) (hpos : ∀ b ∈ full, 1 ≤ b) :
+    opCount name (mergeInfo (pickLargest (s0 :: rest))) = some (macMerge full) := by
+  rw [C19_count_merge name hn]
+  obtain ⟨hm, hmax⟩ := pickLargestBy_spec prodL s0 rest
+  have h1 : prodL (pickLargest (s0 :: rest)) ≤ prodL full :=
+    bcastTo_prod_le _ _ (hb _ hm) hpos
+  have h2 : prodL full ≤ prodL (pickLargest (s0 :: rest)) := hmax full hfull
+  rw [macMerge_eq_prodL, macMerge_eq_prodL]
+  congr 1
+  omega
+
+/-- the demo of seed C19-11: the full element count selects the feature map in both orders (80); a key
+    that leaves the channel axis out (`prodL s.dropLast`) ties and takes the first operand (16; gate: 1). -/
+theorem C19_witness_merge_channel_mask :
+    macMerge (pickLargest [[4, 4, 1], [4, 4, 5]]) = 80 ∧ macMerge (pickLargest [[4, 4, 5], [4, 4, 1]]) = 80 ∧
+    macMerge (pickLargestBy (fun s => prodL s.dropLast) [[4, 4, 1], [4, 4, 5]]) = 16 ∧
+    macMerge (pickLargestBy (fun s => prodL s.dropLast) [[1], [7]]) = 1 := by
+  decide
+
+/-- TWO-SIDED broadcast (no operand has the shape `out` of the result): what the code reports is the size
+    of its largest operand — never more than the operations performed, … -/
+theorem C19_count_merge_two_sided_partial (name : String) (hn : isMergeName name = true)
+    (s0 : List ℕ) (rest : List (List ℕ)) (out : List ℕ)
+    (hb : ∀ s ∈ s0 :: rest, bcastTo s out) (hpos : ∀ b ∈ out, 1 ≤ b) :
+    opCount name (mergeInfo (pickLargest (s0 :: rest))) = some (prodL (pickLargest (s0 :: rest))) ∧
+    prodL (pickLargest (s0 :: rest)) ≤ macMerge out ∧
+    ∀ s ∈ s0 :: rest, prodL s ≤ prodL (pickLargest (s0 :: rest)) := by
+  obtain ⟨hm, hmax⟩ := pickLargestBy_spec prodL s0 rest
+  refine ⟨?_, ?_, hmax⟩
+  · rw [C19_count_merge name hn, macMerge_eq_prodL]
+  · rw [macMerge_eq_prodL]; exact bcastTo_prod_le _ _ (hb _ hm) hpos
+
+/-- … and strictly less in general: Multiply of (4,1,3) and (1,5,3) performs 60 multiplications per
+    sample, 15 are reported (reproduced on the real code: known finding C19-merge-two-sided-broadcast). -/
+theorem C19_count_merge_two_sided_counterexample :
+    bcastTo [4, 1, 3] [4, 5, 3] ∧ bcastTo [1, 5, 3] [4, 5, 3] ∧
+    opCount "Multiply" (mergeInfo (pickLargest [[4, 1, 3], [1, 5, 3]])) = some 15 ∧
+    opCount "Multiply" (mergeInfo (pickLargest [[1, 5, 3], [4, 1, 3]])) = some 15 ∧
+    macMerge [4, 5, 3] = 60 := by
+  refine ⟨?_, ?_, by decide, by decide, by decide⟩
+  · simp [bcastTo]
+  · simp [bcastTo]
+
 end QKV.Props.C19
